@@ -939,10 +939,10 @@ func reach(m *Model, startDS string, start string, joins []c18Join) map[string]b
 }
 
 type c18Track struct {
-	changed map[string]map[string]bool // dataset -> ids written since the last fixpoint
-	prev    *Model                     // model at the last fixpoint
-	tokens  map[string]uint64          // dependency tokens at the last look
-	maxCommit map[string]int           // dataset -> largest number of entities one commit wrote since the last fixpoint
+	changed   map[string]map[string]bool // dataset -> ids written since the last fixpoint
+	prev      *Model                     // model at the last fixpoint
+	tokens    map[string]uint64          // dependency tokens at the last look
+	maxCommit map[string]int             // dataset -> largest number of entities one commit wrote since the last fixpoint
 }
 
 // runFixOp runs the job until its continuation token stops changing and checks what was emitted.
